@@ -19,6 +19,8 @@ from __future__ import annotations
 import math
 import re
 import urllib.parse
+from decimal import Decimal
+from fractions import Fraction
 
 from vt.gen.fcase_c2223 import Obj, Sameness
 
@@ -337,25 +339,47 @@ def c_filesizeformat(v, p, got, info):
     return None
 
 
+def _round_candidates(v, prec):
+    """(floor, ceil) multiples of 10**-prec around the number, exactly, under
+    the two readings of a float subject: its exact binary value and the decimal
+    it is written as (``repr``).  Integers have one reading."""
+    step = Fraction(10) ** (-prec)
+    readings = [Fraction(v)]
+    if isinstance(v, float):
+        readings.append(Fraction(Decimal(repr(v))))
+    out = []
+    for x in readings:
+        q = x / step
+        out.append((math.floor(q) * step, math.ceil(q) * step))
+    return step, out
+
+
+def _close(got, target, step):
+    return abs(Fraction(got) - target) <= abs(target) / 10 ** 12 + step / 10 ** 9
+
+
 def c_round(v, p, got, info):
     prec, method = p["precision"], p["method"]
     if isinstance(got, bool) or not isinstance(got, (int, float)):
         return ("type", f"returned {_r(got)}")
-    step = 10.0 ** (-prec)
-    tol = step * 1e-6 + abs(v) * 1e-12
-    q = got / step
-    if abs(q - round(q)) > 1e-6 * max(1.0, abs(q)):
-        return ("precision", f"{v!r} rounded to {got!r} which is not a multiple of 10**-{prec}")
-    d = got - v
-    if method == "common":
-        if abs(d) > step / 2 + tol:
-            return ("common", f"{v!r}|round({prec}) gave {got!r}, not the nearest multiple")
-    elif method == "ceil":
-        if d < -tol or d >= step + tol:
-            return ("ceil", f"{v!r}|round({prec}, 'ceil') gave {got!r}")
+    step, cands = _round_candidates(v, prec)
+    if method == "ceil":
+        # "'ceil' always rounds up"
+        if not any(_close(got, ce, step) for _, ce in cands):
+            return ("ceil", f"{v!r}|round({prec}, 'ceil') gave {got!r}, the next multiple of "
+                            f"10**{-prec} upwards is {float(cands[0][1])!r}")
     elif method == "floor":
-        if d > tol or d <= -step - tol:
-            return ("floor", f"{v!r}|round({prec}, 'floor') gave {got!r}")
+        if not any(_close(got, fl, step) for fl, _ in cands):
+            return ("floor", f"{v!r}|round({prec}, 'floor') gave {got!r}, the next multiple of "
+                             f"10**{-prec} downwards is {float(cands[0][0])!r}")
+    else:
+        # "'common' rounds either up or down": one of the two neighbours, and
+        # the nearer one (either may be taken on a tie)
+        if not any(_close(got, x, step) for pair in cands for x in pair):
+            return ("precision", f"{v!r}|round({prec}) gave {got!r}, not a neighbouring multiple "
+                                 f"of 10**{-prec}")
+        if abs(Fraction(got) - Fraction(v)) > step / 2 + step / 10 ** 6 + abs(Fraction(v)) / 10 ** 12:
+            return ("common", f"{v!r}|round({prec}) gave {got!r}, not the nearest multiple")
     if not isinstance(got, float):
         # "Note that even if rounded to 0 precision, a float is returned.  If you
         # need a real integer, pipe it through int"
